@@ -19,6 +19,8 @@ func init() {
 			ruleOneCriticalSection(c, "C05.R6")
 			c.Rule("C05.R9", "no error of the ipam / store / provider layer is silently dropped in galaxy-ipam", 60)
 			ruleNoDroppedErrors(c, "C05.R9", []string{"pkg/ipam/floatingip", "pkg/ipam/schedulerplugin", "pkg/ipam/api"}, droppedErrExceptions)
+			c.Rule("C05.R10", "UpdateAttr persists on every successful return", 2)
+			ruleUpdateAttrAlwaysWrites(c, "C05.R10")
 			c.Rule("C05.R7", "an IP enters the allocated table only after the Create of that object succeeded (per object)", 3)
 			ruleCreateBeforeCache(c, "C05.R7")
 			c.Rule("C05.R8", "errors of the store client are returned by the store wrappers", 5)
@@ -32,6 +34,8 @@ func init() {
 			ruleMultiIPAllOrNothing(c, "C08.R1")
 			c.Rule("C08.R4", "candidate guards in the range walk callback", 3)
 			ruleCandidateGuards(c, "C08.R4")
+			c.Rule("C08.R6", "reported ips are the lookup for the full request, in its order", 3)
+			ruleReportedInRequestOrder(c, "C08.R6")
 			c.Rule("C08.R5", "no bind after a failed allocation", 1)
 			ruleBindAfterAllocate(c, "C08.R5")
 		}})
